@@ -83,3 +83,23 @@ Theorem C05_depth_one_matches_are_represented : forall s, match_inv s ->
     forall sb, List.In sb l -> exists a, lookup_pat s' (PNode nd (List.map PVarP vs)) sb = Ok (Some a) /\ List.In (aid a) (ids s).
 Proof. exact matches_are_represented_inv. Qed.
 Print Assumptions C05_depth_one_matches_are_represented.
+
+(* third session, second round (EGraph/MatchReprAll{Chk,Defs,Ren,K1,Inv,Top,}.v): the MAIN CLAUSE for patterns of ARBITRARY depth,
+   repeated variables and binders, with no restriction for redundant slots or symmetric classes: in every state satisfying the
+   reachable invariants - hence after EVERY history over statically well-formed terms - every substitution the matcher returns
+   instantiates the pattern to a term that the read-only lookup finds, in a live class, by an invocation EQUAL to the root the
+   match was reported for.  This is the conclusion of the verified checker (C05_checked_matches_are_represented) without running it.
+   (`inv_needs_hc_ok`: on a state violating the hash-cons invariant the statement fails - the invariant is needed.) *)
+From SE Require Import EGraph.ModelMachine EGraph.CongruenceFacts EGraph.OpsPreFacts EGraph.MatchReprAll.
+Theorem C05_matches_are_represented : forall s p, match_inv s -> ss_ok s -> wf_pat p -> pat_pre (Model.ctr s) p ->
+  forall l s', ematch_all p s = Ok (l, s') -> forall sb, List.In sb l ->
+  exists r a, mr_sb r = sb /\ List.In (mr_id r) (ids s) /\ lookup_pat s' p sb = Ok (Some a) /\ eg_eq s' a (mr_root r) = Ok true.
+Proof. exact matches_are_represented_all. Qed.
+Print Assumptions C05_matches_are_represented.
+
+Theorem C05_matches_are_represented_for_all_histories : forall terms ops hs s p, List.Forall term_static terms ->
+  run_ops terms ops [] empty_egraph = Ok (hs, s) -> wf_pat p -> pat_pre (Model.ctr s) p ->
+  forall l s', ematch_all p s = Ok (l, s') -> forall sb, List.In sb l ->
+  exists r a, mr_sb r = sb /\ List.In (mr_id r) (ids s) /\ lookup_pat s' p sb = Ok (Some a) /\ eg_eq s' a (mr_root r) = Ok true.
+Proof. exact matches_are_represented_all_reachable. Qed.
+Print Assumptions C05_matches_are_represented_for_all_histories.
